@@ -528,7 +528,8 @@ Proof.
   unfold exec. destruct (effect_of root cl) as [eff|]; try discriminate.
   unfold resolve_container. destruct (f_ensure eff) as [[k nm]|].
   - destruct (at_path (removelast (f_at eff)) _ root) as [r1|] eqn:E1; try discriminate.
-    destruct (get_path _ r1); try discriminate.
+    destruct (get_path _ r1) as [par|]; try discriminate.
+    destruct (index_named (ekids par) k nm 1 =? 0); try discriminate.
     destruct (at_path _ (add_kids (f_new eff)) r1) as [r2|] eqn:E2; try discriminate.
     destruct (get_path _ r2); try discriminate. intros H; inversion H; subst.
     rewrite (at_path_kind _ _ (add_kids_kind _) _ _ E2).
